@@ -14,8 +14,11 @@ Tie (every run):
      (functions, structs, enums, impl blocks; all type tuples; all call orders; repeated uses);
   C. the run-time type context of generic impl blocks (coq/C11/Context.v: TypeContext, the stack, find_impl_for_struct,
      the method-call path): call skeletons in which methods of one instantiation call methods on receivers of other
-     instantiations of the same block / other blocks / through generic functions, nested, with early returns -
-     extracted model trace vs generic program vs twin; TypeContext::resolve_complex_type (ast.h) vs the model.
+     instantiations of the same block / other blocks / through generic functions, nested, with early returns, methods of
+     every return kind (int/long/bool/string/void/struct) and deferred statements (the user code that runs at scope exit,
+     between the pops of the context and the end of the call) - extracted model trace (order of the code) vs generic
+     program, extracted hand-specialised copy vs twin, generic vs twin wherever the two traces agree;
+     TypeContext::resolve_complex_type (ast.h) vs the model.
 """
 import itertools
 import json
@@ -50,8 +53,10 @@ META = {
             "its RECEIVER - a callee of another instantiation of the same block included - and the caller's context is restored after every "
             "non-failing callee), the pushed context is the instance of the receiver's struct type name, the instance registry is transparent after "
             "any call history (instances independent, n-th use like the first), the type arguments of Base<a1, .., ak> bind parameter i to ai, "
-            "resolve_complex_type on flat type expressions is structural substitution; refuted with witnesses (known findings): nested arguments, "
-            "tuple-typed arguments, a run-time error passing the pops, a local declared Box<T>. "
+            "resolve_complex_type on flat type expressions is structural substitution; deferred statements: the stack semantics equals the "
+            "fixed-context semantics in the order of the code for every program, and equals the hand-specialised copy for every program whose "
+            "defers are run by the closing top-level return (impl_methods_equal_hand_copy_partial); refuted with witnesses (known findings): nested "
+            "arguments, a local declared Box<T>, a deferred statement left pending by a nested return / void end / error (it runs after the pop). "
             "The model is tied to the code on every run "
             "by running the extracted model and the repository's own clone/substitute/instantiate/cache-key code on the parser's ASTs of all "
             "generated generic functions, on random trees and on an exhaustive small scope of type-name strings, and the property itself is "
@@ -63,7 +68,7 @@ META = {
             "oracle). Partial: the interpreter's reading of the instantiated AST is not modelled - that the uncopied scalar members "
             "(original_type_name, literal_text, ...) are irrelevant to execution is tied by the twin runs only. The type-context model abstracts a "
             "method body to the statements that read or change the context (observation of a type name, struct local, method call, function call, "
-            "early return, error); constructors/destructors of generic structs and the builtins sizeof_type/array_get/array_set are not modelled "
+            "early return, error, deferred observation, end of a void body); constructors/destructors of generic structs and the builtins sizeof_type/array_get/array_set are not modelled "
             "(twin runs of corpus programs only). parse_type_from_string is modelled with an empty typedef registry (generated programs have no typedef).",
 }
 
@@ -1346,6 +1351,15 @@ CTX_LIT = {"short": "7", "int": "70000", "long": "3000000000", "string": '"s"', 
 CTX_LIT_OUT = {"short": "7", "int": "70000", "long": "3000000000", "string": "s", "bool": "1"}
 
 
+# return kinds of generated methods: every exit path of the method-call protocol pops the type context at its own place
+# (normal end of a void method, ReturnException handler for int / long / bool, re-thrown string and struct results)
+CTX_RETS = ["int", "int", "int", "long", "bool", "string", "void", "P"]
+
+
+def ctx_ret_value(ret, k):
+    return {"int": str(k), "long": str(k), "bool": "true" if k % 2 else "false", "string": '"r%d"' % k, "void": "", "P": "rp0"}[ret]
+
+
 def ctx_inst_name(base, args):
     return "%s<%s>" % (base, ", ".join(args))
 
@@ -1363,9 +1377,16 @@ class CtxProgram:
         self.meta = {}
 
     # ------------------------------------------------------------ rendering
-    def _render_body(self, params, sparams, acts, is_method):
+    def _ret_of(self, base, m):
+        if m in ("fail", "put"):
+            return "int"
+        return [x for x in self.blocks[base] if x["name"] == m][0].get("ret", "int")
+
+    def _render_body(self, params, sparams, acts, is_method, ret="int"):
         """Cb text of a body and, in parallel, the model's act list (strings for the CTX protocol)."""
         lines, macts = [], []
+        if ret == "P":
+            lines.append("    P rp0; rp0.x = n; rp0.y = 0;")
         env = [(pn, pt) for pn, pt in sparams]          # declared type text of every variable in scope (static)
         uid = [0]
         rx = re.compile(r"\b(%s)\b" % "|".join(map(re.escape, params + ["TT"]))) if True else None
@@ -1408,10 +1429,14 @@ class CtxProgram:
                 sp = [] if m == "fail" else [x for x in self.blocks[base] if x["name"] == m][0]["sparams"]
                 args = [var_of_type(pt) for _, pt in sp]
                 r = fresh("r")
-                if a[0] == "C":
-                    lines.append("    int %s = %s.%s(%s);" % (r, v, m, ", ".join(["n - 1"] + args)))
+                crt = self._ret_of(base, m)
+                if a[0] == "C" and crt == "void":
+                    lines.append("    %s.%s(%s);" % (v, m, ", ".join(["n - 1"] + args)))
+                elif a[0] == "C":
+                    lines.append("    %s %s = %s.%s(%s);" % (crt, r, v, m, ", ".join(["n - 1"] + args)))
                 else:
-                    lines.append("    Result<int, RuntimeError> %s = try %s.%s(%s);" % (r, v, m, ", ".join(["n - 1"] + args)))
+                    lines.append("    Result<%s, RuntimeError> %s = try %s.%s(%s);" % (
+                        "int" if crt == "void" else crt, r, v, m, ", ".join(["n - 1"] + args)))
                 macts.append("%s %s %s" % (a[0], enc(v), enc(m)))
             elif a[0] == "P":
                 # v.put(n - 1, <literal of the receiver's first type argument>, ...): the T-typed parameters of `put` are
@@ -1429,9 +1454,16 @@ class CtxProgram:
                 lines.append("    int %s = %s<%s>(%s);" % (r, g, targ, ", ".join(["n - 1"] + args)))
                 macts.append("G %s" % enc("%s<%s>" % (g, targ)))
             elif a[0] == "R":
-                lines.append("    if (%d >= n) { return %d; }" % (a[1], a[1]))
+                lines.append("    if (%d >= n) { return%s; }" % (a[1], (" " + ctx_ret_value(ret, a[1])) if ret != "void" else ""))
                 macts.append("R %d" % a[1])
-        lines.append("    return 9;")
+            elif a[0] == "L":
+                # a deferred observation, at the top level of the body: it runs when the method's scope is left
+                lines.append("    defer println(sizeof(%s));" % a[1])
+                macts.append("L %s" % enc(a[1]))
+        if ret == "void":
+            macts.append("Z")             # the body falls off its end
+        else:
+            lines.append("    return %s;" % ctx_ret_value(ret, 9))
         return lines, macts
 
     def to_program(self):
@@ -1445,8 +1477,8 @@ class CtxProgram:
             params, iface, fields = CTX_BLOCKS[base]
             sigs, texts, mm = [], [], []
             for md in methods:
-                sig = "int %s(%s)" % (md["name"], ", ".join(["int n"] + ["%s %s" % (pt, pn) for pn, pt in md["sparams"]]))
-                lines, macts = self._render_body(params, md["sparams"], md["acts"], True)
+                sig = "%s %s(%s)" % (md.get("ret", "int"), md["name"], ", ".join(["int n"] + ["%s %s" % (pt, pn) for pn, pt in md["sparams"]]))
+                lines, macts = self._render_body(params, md["sparams"], md["acts"], True, md.get("ret", "int"))
                 sigs.append(sig)
                 texts.append("  %s {\n%s\n  }" % (sig, "\n".join(lines)))
                 mm.append((md["name"], md["sparams"], macts))
@@ -1494,7 +1526,8 @@ class CtxProgram:
         for ty, v in self.main_vars.items():
             m.append("  %s %s; %s.tag = 1;" % (ty, v, v))
         for i, (v, rty, meth, n, args) in enumerate(self.calls):
-            m.append("  Result<int, RuntimeError> q%d = try %s.%s(%s);" % (i, v, meth, ", ".join([str(n)] + args)))
+            crt = self._ret_of(rty.split("<")[0], meth)
+            m.append("  Result<%s, RuntimeError> q%d = try %s.%s(%s);" % ("int" if crt == "void" else crt, i, v, meth, ", ".join([str(n)] + args)))
             m.append('  println("--");')
         pr.main = "void main() {\n" + "\n".join(m) + "\n}\n"
         pr.meta = dict(self.meta)
@@ -1516,9 +1549,14 @@ class CtxProgram:
 def gen_ctx_program(seed, k, shape=None):
     rng = rng_for(seed, "c11-ctx", k)
     cp = CtxProgram()
-    shape = shape or rng.choice(["one-block", "one-block", "two-blocks", "duo", "with-fns", "all"])
+    shape = shape or rng.choice(["one-block", "one-block", "two-blocks", "duo", "with-fns", "all", "defers", "defers-two"])
     bases = {"one-block": ["Cell"], "two-blocks": ["Cell", "Box"], "duo": ["Duo", "Cell"], "with-fns": ["Cell"],
-             "all": ["Cell", "Duo", "Box"]}[shape]
+             "all": ["Cell", "Duo", "Box"], "defers": ["Cell"], "defers-two": ["Cell", "Duo"]}[shape]
+    # scope-exit statements: `defer println(sizeof(T));` at the top level of a method body runs when the method's scope is left -
+    # the one piece of user code that executes between the pops of the type context and the end of the call.  Dense in the
+    # "defers" shapes (every return kind present), sprinkled elsewhere.
+    dense = shape.startswith("defers")
+    p_defer = 0.30 if dense else 0.07
     pool = [t for t in CTX_TYPES]
     uni = []
     while len(uni) < rng.randint(2, 3):
@@ -1542,8 +1580,14 @@ def gen_ctx_program(seed, k, shape=None):
             if b in bases or b == "Box":
                 need_struct.add(it)
     nm = {b: rng.randint(3, 4) for b in bases}
+    if dense:
+        nm = {b: rng.randint(5, 6) for b in bases}
     for b in bases:
         cp.blocks[b] = [{"name": "m%d" % j, "sparams": [], "acts": []} for j in range(nm[b])]
+        kinds = ["int", "void", "long", "string", "bool", "P"]
+        rng.shuffle(kinds)
+        for j, md in enumerate(cp.blocks[b]):
+            md["ret"] = kinds[j % len(kinds)] if dense else rng.choice(CTX_RETS)
     with_fns = shape in ("with-fns", "all")
     if with_fns:
         cp.fns["gobs"] = {"sparams": [], "acts": [], "tt_decl": False}
@@ -1572,6 +1616,10 @@ def gen_ctx_program(seed, k, shape=None):
         env += [(pn, pt.split("<")[0], pt) for pn, pt in sparams]
         lc = [0]
         for _ in range(rng.randint(3, 7)):
+            if params and rng.random() < p_defer:
+                # bare parameters and concrete flat types only: what a late defer leaves unresolved (T) is measurable from main
+                acts.append(("L", rng.choice(list(params) * 3 + [rng.choice(flat)])))
+                continue
             r = rng.random()
             if r < 0.38:
                 acts.append(("O", rng.choice(type_forms(params)), rng.randint(0, 3)))
@@ -1623,7 +1671,7 @@ def gen_ctx_program(seed, k, shape=None):
             md["acts"] = body(CTX_BLOCKS[b][0], md["sparams"], 0, b)
     if with_fns:
         # generic functions that call other instantiations of themselves and methods on receivers built from TT
-        cp.fns["gobs"]["acts"] = [("R", 0), ("O", "TT", 0), ("G", "gobs", rng.choice(flat)), ("O", "TT", 1),
+        cp.fns["gobs"]["acts"] = [("R", 0), ("O", "TT", 0), ("L", "TT"), ("G", "gobs", rng.choice(flat)), ("O", "TT", 1),
                                   ("O", "Box<TT>", 0)]
         cp.fns["gvia"]["acts"] = [("R", 0), ("O", "TT", 0), ("C", "pgc", "Cell", rng.choice(cp.blocks["Cell"])["name"]), ("O", "TT", 0),
                                   ("D", "lc", "Cell<%s>" % rng.choice(flat)), ("C", "lc", "Cell", rng.choice(cp.blocks["Cell"])["name"]),
@@ -1700,18 +1748,21 @@ def known_signature(pr, g, t):
     return None
 
 
-def run_ctx_stage(rep, seed, seeds, quick, impl_dir, mbin, hist, proof_broken):
-    """C: generic impl blocks at several instantiations calling each other; model trace vs generic program vs twin."""
-    n = 150 if quick else 2400
-    shapes = ["one-block", "two-blocks", "duo", "with-fns", "all"]
-    cps = []
-    for sd in seeds:
-        for k in range(n // len(seeds)):
-            cps.append(gen_ctx_program(sd, k, shapes[k] if k < len(shapes) else None))
-    prs = [cp.to_program() for cp in cps]
-    mo = batch([mbin], [pr.ctx_request for pr in prs])
-    groups = [[g.split() for g in line.split(" ; ")] for line in mo]
-    names = sorted({dec(x) for gs in groups for g in gs for x in g[2:] if not dec(x).startswith("#")})
+def ctx_groups(line):
+    """model answer to a CTX request -> (groups of Context.run, groups of Context.run_calls_mono = the hand-specialised copy)"""
+    mech, _, spec = line.partition(" || ")
+    f = lambda part: [g.split() for g in part.split(" ; ")] if part.strip() else []
+    return f(mech), f(spec)
+
+
+def ctx_predict(gs, table):
+    """the stdout the groups stand for: every observed name printed as its size (measured from main), `--` after each call"""
+    ok = all(x[0] in ("N", "R", "E") and x[1] == "0" for x in gs) and all(dec(y) in table or dec(y).startswith("#") for x in gs for y in x[2:])
+    txt = "".join("".join((dec(y)[1:] if dec(y).startswith("#") else table.get(dec(y), "?")) + "\n" for y in x[2:]) + "--\n" for x in gs)
+    return ok, txt
+
+
+def ctx_size_table(impl_dir, names):
     table = {}
     # sizes measured from main (no context), in chunks so that one unmeasurable name does not spoil the table
     chunks = [names[i:i + 40] for i in range(0, len(names), 40)]
@@ -1719,23 +1770,124 @@ def run_ctx_stage(rep, seed, seeds, quick, impl_dir, mbin, hist, proof_broken):
         vals = r[1].split("\n")[:-1]
         if r[0] == 0 and len(vals) == len(ch):
             table.update(dict(zip(ch, vals)))
+    return table
+
+
+def ctx_model_differs(cp, impl_dir, mbin, table):
+    """the generic program of a call skeleton runs (rc 0) and prints something else than the model's trace stands for"""
+    pr = cp.to_program()
+    gs, _ = ctx_groups(batch([mbin], [pr.ctx_request])[0])
+    missing = sorted({dec(y) for x in gs for y in x[2:] if not dec(y).startswith("#") and dec(y) not in table})
+    if missing:
+        table.update(ctx_size_table(impl_dir, missing))
+    ok, pred = ctx_predict(gs, table)
+    g = common.run_cb(impl_dir, pr.generic_text(), timeout=10)
+    return ok and g[0] == 0 and g[1] != pred
+
+
+def shrink_ctx_model(cp, impl_dir, mbin, table, budget=160):
+    """Greedy reduction of a call skeleton on which interpreter and model disagree: calls from main, then statements of
+    the method bodies (a declaration stays while a later statement uses its variable), the disagreement kept."""
+    import copy
+    cur = copy.deepcopy(cp)
+    left = [budget]
+
+    def still(c):
+        if left[0] <= 0:
+            return False
+        left[0] -= 1
+        try:
+            return ctx_model_differs(c, impl_dir, mbin, table)
+        except Exception:
+            return False
+    if not still(cur):
+        return cp
+    for one in list(cur.calls):                 # one call from main is usually enough
+        c = copy.deepcopy(cur)
+        c.calls = [one]
+        if still(c):
+            cur = c
+            break
+    else:
+        i = 0
+        while i < len(cur.calls) and len(cur.calls) > 1:
+            c = copy.deepcopy(cur)
+            del c.calls[i]
+            if still(c):
+                cur = c
+            else:
+                i += 1
+    changed = True
+    while changed and left[0] > 0:
+        changed = False
+        for b in list(cur.blocks):
+            for mi in range(len(cur.blocks[b])):
+                acts = cur.blocks[b][mi]["acts"]
+                for ai in range(len(acts) - 1, -1, -1):
+                    a = acts[ai]
+                    if a[0] == "D" and any(x[0] in ("C", "Y", "P") and x[1] == a[1] for x in acts[ai + 1:]):
+                        continue
+                    c = copy.deepcopy(cur)
+                    del c.blocks[b][mi]["acts"][ai]
+                    if still(c):
+                        cur = c
+                        changed = True
+                        break
+                if changed:
+                    break
+            if changed:
+                break
+    return cur
+
+
+CTX_SHAPES = ["one-block", "two-blocks", "duo", "with-fns", "all", "defers", "defers-two", "defers", "defers-two", "defers"]
+
+
+def run_ctx_stage(rep, seed, seeds, quick, impl_dir, mbin, hist, proof_broken):
+    """C: generic impl blocks at several instantiations calling each other; model trace vs generic program vs twin."""
+    n = 150 if quick else 2400
+    shapes = CTX_SHAPES
+    cps = []
+    for sd in seeds:
+        for k in range(n // len(seeds)):
+            cps.append(gen_ctx_program(sd, k, shapes[k] if k < len(shapes) else None))
+    prs = [cp.to_program() for cp in cps]
+    mo = batch([mbin], [pr.ctx_request for pr in prs])
+    both = [ctx_groups(line) for line in mo]
+    names = sorted({dec(x) for pair in both for gs in pair for g in gs for x in g[2:] if not dec(x).startswith("#")})
+    table = ctx_size_table(impl_dir, names)
     results = common.pmap(lambda pr: run_pair(impl_dir, pr, timeout=10), prs)
     out = {"violations_with_input": 0, "programs": len(prs), "distinct": 0}
-    twin_bad, model_bad, calls, nested_calls, cross_obs = [], [], 0, 0, 0
+    twin_bad, model_bad, spec_bad, calls, nested_calls, cross_obs = [], [], [], 0, 0, 0
+    late_progs = late_differs = defer_acts = 0
+    ret_hist = {}
     distinct = set()
-    for cp, pr, gs, (g, t) in zip(cps, prs, groups, results):
+    for cp, pr, (gs, ms), (g, t) in zip(cps, prs, both, results):
         fam = pr.meta["family"]
         hist["prog-" + fam] = hist.get("prog-" + fam, 0) + 1
         calls += len(gs)
         cross_obs += sum(len(x) - 2 for x in gs)
-        pred_ok = all(x[0] in ("N", "R", "E") and x[1] == "0" for x in gs) and all(dec(y) in table or dec(y).startswith("#") for x in gs for y in x[2:])
-        pred = "".join("".join((dec(y)[1:] if dec(y).startswith("#") else table.get(dec(y), "?")) + "\n" for y in x[2:]) + "--\n" for x in gs)
+        for mds in cp.blocks.values():
+            for md in mds:
+                ret_hist[md.get("ret", "int")] = ret_hist.get(md.get("ret", "int"), 0) + 1
+                defer_acts += sum(1 for a in md["acts"] if a[0] == "L")
+        pred_ok, pred = ctx_predict(gs, table)
+        spec_ok, spec = ctx_predict(ms, table)
+        # outside the hypotheses of impl_methods_equal_hand_copy_partial, decided by the proved model itself: the order of the
+        # code and the hand-specialised copy observe different names (a deferred statement ran after the pop of its context:
+        # known finding C11-impl-defer-after-context-pop).  There the twin is demanded to follow the copy, the interpreter the code.
+        late = [x[2:] for x in gs] != [x[2:] for x in ms]
         if t[0] == 0 and t[1].strip():
             distinct.add(t[1])
-        if not verdict(g, t):
+        if late:
+            late_progs += 1
+            late_differs += 0 if verdict(g, t) else 1
+        if not late and not verdict(g, t):
             twin_bad.append((cp, pr, g, t))
         elif not pred_ok or g[1] != pred:
-            model_bad.append((cp, pr, g, pred, gs))
+            model_bad.append((cp, pr, g, pred, gs, late))
+        elif t[0] == 0 and (not spec_ok or t[1] != spec):
+            spec_bad.append((cp, pr, t, spec, ms))
     out["distinct"] = len(distinct)
 
     def shrink_ctx(pr):
@@ -1746,6 +1898,20 @@ def run_ctx_stage(rep, seed, seeds, quick, impl_dir, mbin, hist, proof_broken):
                 return False
             g, t = run_pair(impl_dir, p, timeout=10)
             return t[0] == 0 and not verdict(g, t)
+        if "defer " in pr.generic_text():
+            # deleting statements around a defer (the closing return, say) would drift into known finding
+            # C11-impl-defer-after-context-pop: shrink the program without its defers, or not at all
+            import copy
+            q = copy.deepcopy(pr)
+            for i in range(len(q.impls)):
+                for j in range(len(q.impls[i][3])):
+                    q.impls[i][3][j] = "\n".join(l for l in q.impls[i][3][j].split("\n") if not l.strip().startswith("defer "))
+            for n_ in q.fn_order:
+                tps, ret, params, body = q.fns[n_]
+                q.fns[n_] = (tps, ret, params, "\n".join(l for l in body.split("\n") if not l.strip().startswith("defer ")))
+            if not bad(q):
+                return pr
+            pr = q
         return shrink_program(pr, bad, budget=300)
     twin_bad.sort(key=lambda f: len(f[1].generic_text()))
     for cp, pr, g, t in twin_bad[:3]:
@@ -1760,17 +1926,37 @@ def run_ctx_stage(rep, seed, seeds, quick, impl_dir, mbin, hist, proof_broken):
                                           "receiver, whoever calls it"},
                       "generic impl blocks: a method called across instantiations behaves unlike its hand-specialised copy (%s): generic rc=%d %r, "
                       "twin rc=%d %r" % (pr.meta["family"], g2[0], g2[1][-60:], t2[0], t2[1][-60:]))
-    for cp, pr, g, pred, gs in model_bad[:2]:
+    model_bad.sort(key=lambda f: len(f[1].generic_text()))
+    for cp, pr, g, pred, gs, late in model_bad[:2]:
+        if g[0] == 0:
+            cp = shrink_ctx_model(cp, impl_dir, mbin, table)
+            pr = cp.to_program()
+            g = common.run_cb(impl_dir, pr.generic_text(), timeout=10)
+            gs = ctx_groups(batch([mbin], [pr.ctx_request])[0])[0]
+            pred = ctx_predict(gs, table)[1]
         gl, pl = g[1].split("\n"), pred.split("\n")
         first = next((i for i in range(max(len(gl), len(pl))) if (gl[i] if i < len(gl) else None) != (pl[i] if i < len(pl) else None)), -1)
         rep.violation("corr-ctx", {"request": pr.ctx_request, "program": pr.generic_text(), "model_flags": [x[:2] for x in gs],
-                                   "first_difference_line": first,
+                                   "first_difference_line": first, "size_table": {k_: table[k_] for k_ in sorted(table)[:60]},
+                                   "impl_stdout": g[1][-1500:], "model_stdout": pred[-1500:], "impl_rc": g[0], "impl_stderr": g[2][-300:],
                                    "impl_line": gl[first] if 0 <= first < len(gl) else None, "model_line": pl[first] if 0 <= first < len(pl) else None,
+                                   "deferred_statements_run_late": late,
                                    "broken": "correspondence Context.run = the type-context stack of the interpreter (carrier of impl_context_stack_discipline)"},
-                      "the interpreter and the proved model of the type-context stack disagree on a generated impl-block program (its twin agrees "
-                      "with the interpreter)", no_failing_input=True)
+                      "the interpreter and the proved model of the type-context stack disagree on a generated impl-block program (%s): output line %d "
+                      "is %r, the model says %r" % (
+                          "with deferred statements that run after the pop of their method's context - the place of that pop is what differs"
+                          if late else "its twin agrees with the interpreter", first + 1,
+                          gl[first] if 0 <= first < len(gl) else None, pl[first] if 0 <= first < len(pl) else None), no_failing_input=True)
+    for cp, pr, t, spec, ms in spec_bad[:2]:
+        rep.violation("corr-ctx-spec", {"request": pr.ctx_request, "twin_program": pr.twin_text(), "twin_stdout": t[1][-1500:],
+                                        "spec_stdout": spec[-1500:],
+                                        "broken": "Context.run_mono false (the Spec of impl_methods_equal_hand_copy_partial) = the monomorphised twin"},
+                      "the hand-monomorphised twin of a generated impl-block program and the proved model's hand-specialised copy (run_mono) disagree",
+                      no_failing_input=True)
     out["coverage"] = {"programs": len(prs), "calls_from_main": calls, "observations": cross_obs, "size_table": len(table),
                        "resolved_names": len(names), "twin_disagreements": len(twin_bad), "model_disagreements": len(model_bad),
+                       "spec_disagreements": len(spec_bad), "method_return_kinds": ret_hist, "defer_statements": defer_acts,
+                       "programs_with_late_defers": late_progs, "late_defer_programs_differing_from_twin": late_differs,
                        "sample_request": prs[0].ctx_request[:400], "sample_model": mo[0][:200]}
     return out
 
@@ -2084,8 +2270,10 @@ def _run_body(rep, seed, tier, quick, lap, cq, proof_broken, new_missing, pinned
                 "tree. B: generic program vs its mechanically monomorphised twin on main (exit status + stdout equal), demanded for every "
                 "program whose generic functions use no recorded-missing member; distinct = distinct twin outputs. C: call skeletons over "
                 "generic impl blocks (methods of one instantiation calling methods on receivers of other instantiations of the same block, of "
-                "other blocks, through generic functions, nested, with early returns): the extracted Context.run trace (resolved type names, "
-                "mapped through a size table measured from main) vs the generic program vs its twin, all three equal; TypeContext::"
+                "other blocks, through generic functions, nested, with early returns, methods of every return kind, deferred statements): the "
+                "extracted Context.run trace (resolved type names, mapped through a size table measured from main) = the generic program, the "
+                "extracted Context.run_mono false trace = its twin, generic = twin whenever the two traces agree (they differ exactly on known "
+                "finding C11-impl-defer-after-context-pop); TypeContext::"
                 "resolve_complex_type of ast.h vs the model on random names and on every string over {T < > , space * [ a} up to length %d" % (scope, scope),
         "exhaustive": True,
         "exhaustive_space": "type-name strings over a 7-letter alphabet up to length %d (%d), as type_name and sizeof_type_name; "
@@ -2106,7 +2294,10 @@ def _run_body(rep, seed, tier, quick, lap, cq, proof_broken, new_missing, pinned
         "generic impl blocks: the model of the type-context stack sees a method body as its context-relevant statements; what an observation prints is "
         "the size of the resolved name, measured from main on the same binary; constructors/destructors and sizeof_type/array_get/array_set are outside the model",
         "generated impl-block programs avoid the recorded findings: parameters spelled over T (Cell<T> o), locals over T other than the block's own "
-        "spelling, default constructors, constructor/destructor impls with parameters not called T, impl statics",
+        "spelling, default constructors, constructor/destructor impls with parameters not called T, impl statics; late deferred statements are NOT "
+        "avoided: such programs are demanded to follow the model (order of the code), their twins the model's hand-specialised copy",
+        "deferred statements are `defer println(sizeof(ty));` at the top level of a method body over bare parameters / concrete types; defers inside "
+        "nested blocks, deferred calls and destructors of locals (call_destructor pushes a context of its own) are outside the model",
         "parse_type_from_string is modelled with an empty typedef registry (generated programs contain no typedef)",
         "the monomorphiser that writes the twin (textual substitution of the type parameters, name mangling) is the property's oracle and is trusted",
         "generated programs avoid `ident <` comparisons and `(type)(ident)` casts (parser findings #36/#37 of C02/C10), string payloads in generic enums (C13)",
@@ -2123,6 +2314,18 @@ def replay(path):
         print("generic: rc=%d stdout=%r stderr=%r" % (g[0], g[1][-400:], g[2][-200:]))
         print("twin:    rc=%d stdout=%r stderr=%r" % (t[0], t[1][-400:], t[2][-200:]))
         return 0 if (g[0], g[1]) == (t[0], t[1]) else 1
+    if "request" in c and c["request"].startswith("CTX ") and "program" in c:
+        # model of the type-context stack vs the interpreter on a call skeleton
+        common.ensure_model(PROP)
+        impl_dir = common.build_impl("plain")
+        gs, ms = ctx_groups(batch([common.model_bin(PROP)], [c["request"]])[0])
+        names = sorted({dec(y) for x in gs for y in x[2:] if not dec(y).startswith("#")})
+        table = ctx_size_table(impl_dir, names)
+        ok, pred = ctx_predict(gs, table)
+        g = common.run_cb(impl_dir, c["program"], timeout=10)
+        print("model: %r" % pred[-600:])
+        print("impl:  rc=%d stdout=%r stderr=%r" % (g[0], g[1][-600:], g[2][-200:]))
+        return 0 if ok and g[0] == 0 and g[1] == pred else 1
     if "request" in c:
         common.ensure_model(PROP)
         leaf = private_leaf()
